@@ -2,6 +2,7 @@
    Statements only; proofs in Proofs/CoreProofs.v. *)
 From PV Require Import Lib.Base Model.Prng Model.Core Model.NoDist Model.NoDistStrat Model.Stratified Proofs.CoreProofs Proofs.NoDistProofs Proofs.NoDistStratProofs.
 From PV Require Lib.LoopShape.
+From PV Require Import Proofs.LoopLink.
 Open Scope Q_scope.
 
 (* core.py's table pUp + plus1/(reps+plus1) ... is the textbook (H+c)/(reps+c); two-sided doubles and caps *)
@@ -107,3 +108,24 @@ Theorem C05_loop_counters_are_the_models_tail_counts : forall tst d,
   LoopShape.count_cmp tst LoopShape.CGe d = count_ge tst d /\ LoopShape.count_cmp tst LoopShape.CLe d = count_le tst d.
 Proof. intros. split; reflexivity. Qed.
 Print Assumptions C05_loop_counters_are_the_models_tail_counts.
+
+(* ... and run on the statistics the MODEL's loop produces on a tape, an accepted loop body with the counters (0, >=), (1, <=)
+   returns exactly the model's keep_dist=False counters, one that stores once per repetition the model's dist: the translated
+   loops of the source and the hand-written model loops agree for every input, number of repetitions and tape *)
+Theorem C05_translated_loop_computes_the_models_counters : forall body, LoopShape.shape_ok body = true ->
+  LoopShape.counts (LoopShape.rest_of body) = [(0%nat, LoopShape.CGe); (1%nat, LoopShape.CLe)] ->
+  (forall s pot nx rr reps t tst d ar t', core_loop s pot nx rr reps t = Ok (d, ar, t') ->
+     exists st', LoopShape.loop (value_of d) tst body reps st_init = Some st' /\
+       core_hits s pot nx rr reps t tst = Ok (LoopShape.cnt st' 0%nat, LoopShape.cnt st' 1%nat, t')) /\
+  (forall s z reps t tst d ar t', one_loop s z reps t = Ok (d, ar, t') ->
+     exists st', LoopShape.loop (value_of d) tst body reps st_init = Some st' /\
+       one_hits s z reps t tst = Ok (LoopShape.cnt st' 0%nat, LoopShape.cnt st' 1%nat, t')).
+Proof. intros body Hok Hc. split; intros; [eapply shaped_loop_is_core_hits | eapply shaped_loop_is_one_hits]; eassumption. Qed.
+Print Assumptions C05_translated_loop_computes_the_models_counters.
+
+Theorem C05_translated_loop_builds_the_models_dist : forall body, LoopShape.shape_ok body = true ->
+  LoopShape.stores (LoopShape.rest_of body) = 1%nat ->
+  forall s pot nx rr reps t tst d ar t', core_loop s pot nx rr reps t = Ok (d, ar, t') ->
+  exists st', LoopShape.loop (value_of d) tst body reps st_init = Some st' /\ LoopShape.dist st' = d.
+Proof. exact shaped_loop_is_core_dist. Qed.
+Print Assumptions C05_translated_loop_builds_the_models_dist.
